@@ -17,11 +17,11 @@ def instance(R, pid, tier, seed, bl, sl, bs, which, tag):
     deltalib.pipeline_obligations(ctx, R, prover, pid, bl, sl, bs, which)
 
 
-def validate_job(R, pid, tier, seed, count, tag):
+def validate_job(R, pid, tier, seed, count, tag, engine="sync"):
     ctx = deltalib.Ctx()
-    deltalib.validate(ctx, R, seed, count)
-    R.results.append({"id": "%s/translator-validation" % pid, "status": "holds", "queries": 0,
-                      "detail": "%d concrete pipeline runs agree with the native build" % R.validation["cases"]})
+    deltalib.validate(ctx, R, seed, count, engine=engine)
+    R.results.append({"id": "%s/translator-validation-%s" % (pid, engine), "status": "holds", "queries": 0,
+                      "detail": "%d concrete %s pipeline runs agree with the native build" % (R.validation["cases"], engine)})
 
 
 def run(R, tier, seed):
@@ -32,13 +32,21 @@ def run(R, tier, seed):
                   "Kani harnesses of C05 decide that the real patch() applies the ops it is given (composition argument in DESIGN §4 C01)"]
     R.assumptions += ["concrete lengths (one instance per (basis length, source length, block size)), symbolic contents; the instance list is the bound",
                       "hash collisions are outside the claim; weak-hash collisions with different content ARE covered (D is an arbitrary function)",
-                      "NOT covered: inputs longer than the bound (> 64 KiB bases, the rayon path), AsyncCopiaSync (unless listed), sync_files, the CLI file chain through bincode",
+                      "covered engines: CopiaSync::delta and the AsyncCopiaSync::delta state machine (from its coroutine MIR; in-memory reader always ready), plus op-for-op agreement of the two",
+                      "NOT covered: inputs longer than the bound (> 64 KiB bases, the rayon path), AsyncCopiaSync::signature (block size >= 512 by construction), sync_files, the CLI file chain through bincode",
                       "in-memory readers never fail (the io::Error path of delta() is not explored)"]
     insts = QUICK if tier == "quick" else THOROUGH
-    jobs = [("obligations.c01", "validate_job", dict(pid="C01", tier=tier, seed=seed, count=40 if tier == "quick" else 300, tag="validate"))]
-    for (bl, sl, bs) in insts:
-        jobs.append(("obligations.c01", "instance", dict(pid="C01", tier=tier, seed=seed, bl=bl, sl=sl, bs=bs, which="C01",
-                                                         tag="pipeline[bl=%d,sl=%d,bs=%d]" % (bl, sl, bs))))
+    jobs = [("obligations.c01", "validate_job", dict(pid="C01", tier=tier, seed=seed, count=40 if tier == "quick" else 300, tag="validate")),
+            ("obligations.c01", "validate_job", dict(pid="C01", tier=tier, seed=seed + 1, count=20 if tier == "quick" else 150, tag="validate-async", engine="async"))]
+    for n, (bl, sl, bs) in enumerate(insts):
+        kinds = ["C01", "C01-agree"]
+        if tier != "quick" or n % 3 == 0:
+            kinds.append("C01-async")
+        for which in kinds:
+            jobs.append(("obligations.c01", "instance", dict(pid="C01", tier=tier, seed=seed, bl=bl, sl=sl, bs=bs, which=which,
+                                                             tag="%s[bl=%d,sl=%d,bs=%d]" % (which, bl, sl, bs))))
+    # biggest instances first so the pool drains evenly
+    jobs.sort(key=lambda j: -(j[2].get("bl", 0) + j[2].get("sl", 0)) * (2 if j[2].get("which") == "C01-agree" else 1))
     R.extra["instances"] = [list(x) for x in insts]
     parallel.run_jobs(R, jobs)
 
